@@ -17,7 +17,7 @@ func c10Scenario(r *rand.Rand, long int) c01Scenario {
 	sc := c01Scenario{Batch: 2000, Parse: r.Intn(2) == 0}
 	if long == 1 {
 		// the 1000-header file rolls over while blocks are processed
-		sc.Initial = []int{998, 1001, 2001}[r.Intn(3)]
+		sc.Initial = []int{1001, 1002, 1003, 1001, 998, 2001}[r.Intn(6)]
 		sc.Start = sc.Initial - 2 - r.Intn(4)
 		if sc.Start > 995 && sc.Initial < 2000 {
 			sc.Start = 995
@@ -33,6 +33,11 @@ func c10Scenario(r *rand.Rand, long int) c01Scenario {
 	sc.Pol = simPolicy{fairness: 1 + r.Intn(6), procPct: []int{0, 50}[r.Intn(2)], permute: r.Intn(2) == 0}
 	sc.PolDesc = fmt.Sprintf("fairness=%d procPct=%d permute=%v", sc.Pol.fairness, sc.Pol.procPct, sc.Pol.permute)
 	sc.Steps = []c01Step{{Op: "settle"}}
+	if long == 1 && sc.Initial > 1000 && sc.Initial < 1010 {
+		// a reorg whose fork point lies in the previous header file
+		d := sc.Initial - 1000 + 1 + r.Intn(3)
+		sc.Steps = append(sc.Steps, c01Step{Op: "reorg", D: d, N: 1 + r.Intn(3)}, c01Step{Op: "settle"})
+	}
 	for i := 0; i < 2+r.Intn(3); i++ {
 		switch r.Intn(5) {
 		case 0, 1:
@@ -174,7 +179,7 @@ func TestVerif_C10(t *testing.T) {
 		stepJ := 1
 		maxJ := 600
 		if sc.Initial > 500 && !verifkit.Thorough() {
-			maxJ = 40 // a replay of a long scenario is expensive: sampled in the quick tier
+			maxJ = 10 // a replay of a long scenario is expensive: reads are sampled in the quick tier, writes and deletes all fail once
 		}
 		if ops > maxJ {
 			stepJ = ops/maxJ + 1
